@@ -48,7 +48,8 @@ fn profile(tx: usize, long: bool) -> Profile {
         w_fault: 1,
         w_eof: 0,
         fail_reason_pct: 8,
-        rm: vec![None],
+        rm: vec![None, None, Some(1), Some(2), Some(5), Some(65535)],
+        vary_rm_pct: 60,
         payload_max: (tx as u32).saturating_sub(10).max(4),
         topic_max: 6,
         pub_props: true,
@@ -84,7 +85,7 @@ fn probe_script(first: &ConnectSpec, tx: usize) -> ConnScript {
     steps.push(Step::SetBroker(BrokerMode::AutoAck));
     steps.push(Step::PollIdle { max: 60 });
     ConnScript {
-        connect: ConnectSpec { handshake: Handshake::Accept, keep_session: true, props: first.props.clone(), io: IoCfg::default() },
+        connect: ConnectSpec { handshake: Handshake::Accept, keep_session: true, props: ConnackProps { receive_max: None, ..first.props.clone() }, io: IoCfg::default() },
         steps,
         end: EndHow::Drop,
     }
